@@ -88,32 +88,44 @@ impl ReadableLuaGenerator {
 
     #[inline]
     fn push_can_add_new_line(&mut self, value: bool) {
+        #[cfg(darklua_verif)]
+        crate::verif_hooks::trace("push_can_add_new_line", "", value as i64);
         self.can_add_new_line_stack.push(value);
     }
 
     #[inline]
     fn pop_can_add_new_line(&mut self) {
+        #[cfg(darklua_verif)]
+        crate::verif_hooks::trace("pop_can_add_new_line", "", 0);
         self.can_add_new_line_stack.pop();
     }
 
     #[inline]
     fn push_indentation(&mut self) {
+        #[cfg(darklua_verif)]
+        crate::verif_hooks::trace("push_indentation", "", 0);
         self.current_indentation += 1;
     }
 
     #[inline]
     fn pop_indentation(&mut self) {
+        #[cfg(darklua_verif)]
+        crate::verif_hooks::trace("pop_indentation", "", 0);
         self.current_indentation -= 1;
     }
 
     #[inline]
     fn write_indentation(&mut self) {
+        #[cfg(darklua_verif)]
+        crate::verif_hooks::trace("write_indentation", "", 0);
         let indentation = " ".repeat(self.indentation * self.current_indentation);
         self.raw_push_str(&indentation);
     }
 
     #[inline]
     fn push_new_line(&mut self) {
+        #[cfg(darklua_verif)]
+        crate::verif_hooks::trace("push_new_line", "", 0);
         self.output.push('\n');
         self.current_line_length = 0;
     }
@@ -125,6 +137,8 @@ impl ReadableLuaGenerator {
 
     #[inline]
     fn push_space(&mut self) {
+        #[cfg(darklua_verif)]
+        crate::verif_hooks::trace("push_space", "", 0);
         self.output.push(' ');
         self.current_line_length += 1;
     }
@@ -132,6 +146,8 @@ impl ReadableLuaGenerator {
     /// Appends a string to the current content of the LuaGenerator. A space may be added
     /// depending of the last character of the current content and the first character pushed.
     fn push_str(&mut self, content: &str) {
+        #[cfg(darklua_verif)]
+        crate::verif_hooks::trace("push_str", content, 0);
         if let Some(next_char) = content.chars().next() {
             self.push_space_if_needed(next_char, content.len());
             self.raw_push_str(content);
@@ -140,6 +156,8 @@ impl ReadableLuaGenerator {
 
     /// Same as the `push_str` function, but for a single character.
     fn push_char(&mut self, character: char) {
+        #[cfg(darklua_verif)]
+        crate::verif_hooks::trace("push_char", character.encode_utf8(&mut [0; 4]), 0);
         self.push_space_if_needed(character, 1);
 
         self.output.push(character);
@@ -149,6 +167,8 @@ impl ReadableLuaGenerator {
 
     #[inline]
     fn raw_push_str(&mut self, content: &str) {
+        #[cfg(darklua_verif)]
+        crate::verif_hooks::trace("raw_push_str", content, 0);
         self.output.push_str(content);
         self.last_push_length = content.len();
         self.current_line_length += self.last_push_length;
@@ -156,6 +176,8 @@ impl ReadableLuaGenerator {
 
     #[inline]
     fn raw_push_char(&mut self, character: char) {
+        #[cfg(darklua_verif)]
+        crate::verif_hooks::trace("raw_push_char", character.encode_utf8(&mut [0; 4]), 0);
         self.output.push(character);
         self.last_push_length = 1;
         self.current_line_length += 1;
@@ -178,6 +200,8 @@ impl ReadableLuaGenerator {
     }
 
     fn push_new_line_if_needed(&mut self, pushed_length: usize) {
+        #[cfg(darklua_verif)]
+        crate::verif_hooks::trace("push_new_line_if_needed", "", pushed_length as i64);
         if self.current_line_length == 0 && self.current_indentation != 0 {
             self.write_indentation();
         }
@@ -196,6 +220,12 @@ impl ReadableLuaGenerator {
     }
 
     fn push_space_if_needed(&mut self, next_character: char, pushed_length: usize) {
+        #[cfg(darklua_verif)]
+        crate::verif_hooks::trace(
+            "push_space_if_needed",
+            next_character.encode_utf8(&mut [0; 4]),
+            pushed_length as i64,
+        );
         if self.current_line_length == 0 && self.current_indentation != 0 {
             self.write_indentation();
         }
@@ -227,6 +257,12 @@ impl ReadableLuaGenerator {
     where
         F: Fn(&str) -> bool,
     {
+        #[cfg(darklua_verif)]
+        crate::verif_hooks::trace(
+            "push_str_and_break_if",
+            content,
+            predicate(self.get_last_push_str()) as i64,
+        );
         if predicate(self.get_last_push_str()) {
             if self.fits_on_current_line(1 + content.len()) {
                 self.push_space();
